@@ -245,3 +245,40 @@ func C07ReflectZeroWidth() {
 		}
 	})
 }
+
+type zzFrameBytes struct {
+	ID   uint32
+	Data []uint8
+}
+
+// C08LongByteList: a list of 5000 one-byte elements (beyond the decoder's list limit) — at top level, as the
+// last member of a structure, as a list of booleans — encoded by hand from the documented layout and cut
+// short at a handful of positions from both ends and the middle: no strict prefix is ever accepted, whatever
+// the decoder does with lists longer than its limit.
+func C08LongByteList() {
+	sym.SetMaxMaterialise(1 << 16)
+	const n = 5000
+	body := make([]byte, n)
+	body[0], body[n/2], body[n-1] = sym.U8("first")&1, sym.U8("middle")&1, sym.U8("last")&1
+	enc := zzCat(zzLE32(n), body)
+	shape := sym.Choose("shape", 3)
+	if shape == 1 {
+		enc = zzCat(zzLE32(sym.U32("id")), enc)
+	}
+	cuts := []int{0, 3, 4, 5, 9, n / 2, len(enc) - 900, len(enc) - 2, len(enc) - 1}
+	k := cuts[sym.Choose("cut", len(cuts))]
+	var err error
+	switch shape {
+	case 0:
+		var v []uint8
+		err = NewDecoder(nil, bytes.NewReader(enc[:k])).Decode(&v)
+	case 1:
+		var v zzFrameBytes
+		err = NewDecoder(nil, bytes.NewBuffer(append([]byte{}, enc[:k]...))).Decode(&v)
+	default:
+		var v []bool
+		err = NewDecoder(nil, bytes.NewReader(enc[:k])).Decode(&v)
+	}
+	sym.Assert(err != nil, "truncated-long-byte-list")
+	sym.Reach("long-byte-list-cut-checked")
+}
